@@ -1,0 +1,61 @@
+//go:build verif
+// +build verif
+
+// Hooks for the runtime monitors under /verif (build tag verif): named yield points of the
+// client connection (before-register, registered, enqueued, before-clean, after-clean) and a
+// read-only count of pending-call entries.
+
+package udp
+
+import (
+	"sync"
+	"sync/atomic"
+)
+
+var verifYieldFn atomic.Value // func(point string)
+
+// VerifSetYield installs f, which is called at every named point (f may block).
+func VerifSetYield(f func(point string)) {
+	if f == nil {
+		f = func(string) {}
+	}
+	verifYieldFn.Store(f)
+}
+
+func verifYield(point string) {
+	if f, ok := verifYieldFn.Load().(func(string)); ok {
+		f(point)
+	}
+}
+
+var (
+	verifMu    sync.Mutex
+	verifConns []*conn
+)
+
+func verifNewConn(c *conn) {
+	verifMu.Lock()
+	verifConns = append(verifConns, c)
+	verifMu.Unlock()
+}
+
+// VerifPending returns the number of connections opened since the last VerifReset and the
+// number of pending-call entries on them, read under each connection's own lock.
+func VerifPending() (conns int, pending int) {
+	verifMu.Lock()
+	cs := append([]*conn(nil), verifConns...)
+	verifMu.Unlock()
+	for _, c := range cs {
+		c.lock.Lock()
+		pending += len(c.results)
+		c.lock.Unlock()
+	}
+	return len(cs), pending
+}
+
+// VerifReset forgets the connections opened so far.
+func VerifReset() {
+	verifMu.Lock()
+	verifConns = nil
+	verifMu.Unlock()
+}
